@@ -81,6 +81,13 @@ class Conv:
                     x = x.x
                 if x.k == "id":
                     return self._at(ast.Call(func=ast.Name(id="__ref__", ctx=ast.Load()), args=[ast.Constant(value=x.name), ast.Constant(value=str(x.get("ctype", "")))], keywords=[]), e)
+            if op == "*" and self.lang == "c":
+                x = e.x
+                while x.k == "paren":
+                    x = x.x
+                ct = str(x.get("ctype", "")).replace("const ", "").strip()
+                if ct.endswith("*") and ct[:-1].strip() in PTR_WIDTH:
+                    return self._at(ast.Subscript(value=self.expr(e.x), slice=ast.Constant(value=0), ctx=ast.Load()), e)
             if op in ("&", "*", "+"):
                 return self.expr(e.x)
             if op == "-":
